@@ -117,6 +117,7 @@ func (vc *VC) fieldAddr(p Val, st *types.Struct, skey string, field int) Val {
 	switch kindOf(ft) {
 	case KStruct, KArray:
 		res.T = vc.subObj(p.T, skey, f.Name())
+		res.SubOf = skey + "." + f.Name()
 	default:
 		res.T = p.T
 		res.Path = []PathEl{{Field: field, Struct: st, SKey: skey}}
